@@ -158,7 +158,7 @@ pub fn aalphabet(c: &ACol) -> Vec<V> {
         Binary | LargeBinary | BinaryView => vec![V::B(vec![]), V::B(vec![0]), V::B(vec![0xff, 0]), V::B(vec![7; 64]), V::B(vec![0xc3, 0x01])],
         FixedSizeBinary(n) => match c.kind {
             Kind::Uuid => vec![V::B(vec![0; 16]), V::B(vec![0xff; 16]), V::B((0..16u8).map(|i| i * 17).collect())],
-            _ => vec![V::B(vec![0; *n as usize]), V::B(vec![0xff; *n as usize]), V::B((1..=*n as u8).collect())],
+            _ => vec![V::B(vec![0; *n as usize]), V::B(vec![0xff; *n as usize]), V::B((0..*n as usize).map(|i| (i + 1) as u8).collect())],
         },
         Decimal128(p, _) | Decimal256(p, _) => {
             let max = pow10(*p as u32).checked_sub(i256::ONE).unwrap();
@@ -1023,6 +1023,45 @@ fn col_alpha(c: &ACol, o: &AOpts) -> Vec<V> {
 
 pub fn build_blocks(ctx: &Ctx) -> Vec<Block> {
     let mut blocks = vec![];
+    // ---- long values (strings, bytes, fixed, arrays, maps): default point, every 1-deviation point and
+    // every codec, in both directions
+    {
+        let lens = long_lengths(!ctx.quick());
+        let strs: Vec<V> = lens.iter().flat_map(|l| [V::S(ascii_ramp(*l)), V::S(straddle(*l, "é", 1)), V::S(straddle(*l, "😀", 2))]).collect();
+        let bins: Vec<V> = lens.iter().flat_map(|l| [V::B(bytes_ramp(*l)), V::B(bytes_ff00(*l))]).collect();
+        let lists: Vec<V> = lens.iter().filter(|l| **l <= 1025).map(|l| V::L((0..*l).map(|i| if i % 7 == 3 { V::Null } else { V::I(i as i128 * 37 - 5) }).collect())).collect();
+        let maps: Vec<V> = lens.iter().filter(|l| **l <= 129).map(|l| V::M((0..*l).map(|i| (V::S(format!("k{i}")), if i % 5 == 2 { V::Null } else { V::I(i as i128) })).collect())).collect();
+        let mut points = dev_points(&DIM_SIZES, 1);
+        points.retain(|p| valid_point(&opts_from_point(p)));
+        for p in points {
+            let o = opts_from_point(&p);
+            let with_null = |mut a: Vec<V>| {
+                if o.nullable {
+                    a.push(V::Null);
+                }
+                Arc::new(a)
+            };
+            let mut cols: Vec<(ACol, Arc<Vec<V>>)> = vec![
+                (plain(DataType::Utf8), with_null(strs.clone())),
+                (plain(DataType::Binary), with_null(bins.clone())),
+                (plain(DataType::List(field("item", DataType::Int32, true))), with_null(lists.clone())),
+                (plain(map_of(DataType::Int64, true)), with_null(maps.clone())),
+            ];
+            for l in &lens {
+                cols.push((plain(DataType::FixedSizeBinary(*l as i32)), with_null(vec![V::B(bytes_ramp(*l)), V::B(bytes_ff00(*l))])));
+            }
+            for (col, alpha) in cols {
+                let n = alpha.len() as u64;
+                for foreign in [false, true] {
+                    if foreign && o.layout != 0 {
+                        continue;
+                    }
+                    blocks.push(Block { family: if foreign { "foreign-long" } else { "rt-long" }, foreign, opts: o.clone(), cols: vec![col.clone()], rows: 1, alpha: vec![alpha.clone()], mode: Mode::Product });
+                    blocks.push(Block { family: if foreign { "foreign-long" } else { "rt-long" }, foreign, opts: o.clone(), cols: vec![col.clone()], rows: 3, alpha: vec![alpha.clone()], mode: Mode::Rotation(n) });
+                }
+            }
+        }
+    }
     let same = grid_same();
     let widened = grid_widened();
     let max_rows = ctx.pick(2, 3);
